@@ -5,6 +5,24 @@ STDLIB = "Go path/filepath/strings/io-fs functions are modelled (Base/Str, Base/
 FSMODEL = "FS.lean models the Linux VFS + Go os package for the calls Unpack makes (lstat/stat/mkdir/MkdirAll/symlink/create/chmod/chtimes, kernel symlink following, umask 022, root privileges; no hard links, mount points, concurrency, ENOSPC); archive/tar + gzip are trusted as an identity between byte streams and entry lists (the harness decodes with the same library)"
 
 PROPS = {
+    "C01": {
+        "lanes": [
+            {"lane": "unpack", "quick": 2500, "thorough": 60000},
+            {"lane": "unpack-faults", "quick": 8, "thorough": 30},
+        ],
+        "trusted_base": [STDLIB, FSMODEL],
+        "assumptions": ["dst is an absolute clean path whose own components are real directories; links already under dst are tidy and lexically inside (an empty destination satisfies this); no allow-list (with one, the allow-listed places are excluded from the oracle)",
+                        "open finding F3 (a link target with '..' after a name): the frame theorem carries TidyLinks; such archives are judged by the oracle and reported as KNOWN-FINDING"],
+        "explanation": "C01_frame_partial: for every archive whose link targets are tidy, every fault position, every result (ok/illegal/io) and every privilege level, no path outside dst changes in the filesystem model (induction over the entry loop with the invariant RealDir & KeysPhysical & AllGood; per-syscall frame lemmas; resolution lemma resolve_under). C01_cex_write_through_link shows the TidyLinks hypothesis is needed on the unchanged code. Tie: 'unpack' and 'unpack-faults' lanes compare the whole arena (dst, prefix-sharing siblings, decoys, two levels of parents) between real Unpack and the model, and the oracle snapshots (type, mode, size, mtime, ctime, inode, content, target) outside dst before/after.",
+    },
+    "C04": {
+        "lanes": [
+            {"lane": "unpack", "quick": 2500, "thorough": 60000},
+        ],
+        "trusted_base": [STDLIB, FSMODEL],
+        "assumptions": ["as C01; open findings F3 (TidyLinks) and F12 (absolute in-dst targets are accepted)"],
+        "explanation": "C04_safe_after_unpack_partial: after Unpack (any result, any fault) every link under dst resolves, the way the kernel follows it through any chain of other links, to a place under dst; C04_allGood_safe (syntactic invariant implies physical safety), C04_links_inside_partial (the invariant is preserved), C04_reject / C04_accepted_is_lexically_inside (decision logic of validSymlink), isWithin_iff (the separator-aware containment test equals component-prefix containment). Counterexamples C04_cex_dotdot_after_link (F3). Tie: 'unpack' lane; oracle resolves every link under dst physically with Lstat/Readlink.",
+    },
     "C12": {
         "lanes": [
             {"lane": "unpack-faults", "quick": 12, "thorough": 40},
